@@ -406,6 +406,78 @@ def worker(job, r):
         pass
 
 
+def memcheck_worker(job, r):
+    """the catalogue once more on a build without sanitizers under valgrind memcheck: fault-free, and with a few single faults per operation.
+    The reports are read from the log files by the parent."""
+    exe, env, work, seed, E, opnames, nfaults = job
+    rng = random.Random(seed)
+    ops = OPS(E)
+    run = Runner(exe, env, work, E)
+    for name in opnames:
+        setup, target = ops[name]
+        try:
+            run.c('fp reset')
+            setup(run)
+            run.c('fp reset')
+            target(run)
+            N = int(run.c('fp stat')['count'])
+            run.teardown()
+            r.count('memcheck_fault_free_runs')
+            idx = sorted(set(list(range(1, min(N, 6) + 1)) + (rng.sample(range(1, N + 1), min(N, nfaults)) if N else [])))
+            for n in idx:
+                run.c('fp reset')
+                setup(run)
+                run.c('fp arm %d' % n)
+                target(run)
+                run.c('fp off')
+                target(run) if name != 'ctx_new' else None
+                run.teardown()
+                r.count('memcheck_faulted_runs')
+                r.observe(('memcheck', name, n))
+        except kexec.ExecCrashed as e:
+            if isinstance(e, kexec.ExecTimeout):
+                raise
+            r.viol('memcheck:crash:%s' % name, 'operation %s under valgrind: the process ended (%s)\n%s' % (name, e.rc, e.stderr[-3000:]), 'op=%s' % name)
+            run.new_session()
+    try:
+        run.sess.ex.close()
+    except Exception:
+        pass
+
+
+def memcheck_part(ctx, E):
+    import shutil, glob, re, stat
+    if not shutil.which('valgrind'):
+        ctx.counters['memcheck_skipped_no_valgrind'] = 1
+        return
+    real = kexec.build(ctx, 'plainfp')
+    logdir = os.path.join(ctx.work, 'vg-c19')
+    os.makedirs(logdir, exist_ok=True)
+    wrapper = os.path.join(ctx.work, 'vg-ksi_exec.sh')
+    with open(wrapper, 'w') as fh:
+        fh.write('#!/bin/sh\nexec valgrind -q --error-exitcode=0 --num-callers=25 --log-file=%s/vg-%%p.log %s "$@"\n' % (logdir, real))
+    os.chmod(wrapper, os.stat(wrapper).st_mode | stat.S_IXUSR | stat.S_IXGRP | stat.S_IXOTH)
+    names = list(OPS(E))
+    nf = 3 if ctx.tier == 'quick' else 25
+    jobs = [(wrapper, ctx.env(), ctx.work, ctx.seed * 1000 + 900 + i, E, names[i::16], nf) for i in range(16)]
+    pool.run(ctx, memcheck_worker, jobs, workers=16)
+    invalid, uninit = {}, {}
+    for lf in glob.glob(os.path.join(logdir, 'vg-*.log')):
+        text = open(lf, errors='replace').read()
+        for blk in re.split(r'\n==\d+== \n', text):
+            frames = re.findall(r'(?:at|by) 0x[0-9A-F]+: (\w+) \((\w+\.c):\d+\)', blk)
+            ksi = [f for f in frames if f[1] in core.KSI_SOURCES]
+            m = re.search(r'(Invalid read|Invalid write|Invalid free|Mismatched free|Jump to the invalid address|Process terminating)', blk)
+            if m and ksi:
+                invalid.setdefault('%s:%s' % (m.group(1).replace(' ', '-').lower(), ksi[0][0]), blk[:2500])
+            elif 'uninitialised' in blk and ksi:
+                uninit.setdefault(ksi[0][0], blk[:1500])
+    for k, blk in sorted(invalid.items()):
+        ctx.violation('memcheck:' + k, 'valgrind memcheck on the build without sanitizers:\n' + blk, 'memcheck part of C19 (catalogue under valgrind)')
+    ctx.counters['memcheck_uninitialised_value_sites_observed_not_judged'] = len(uninit)
+    ctx.extra['memcheck_uninitialised_value_reports_first_library_frame'] = {k: v[:600] for k, v in sorted(uninit.items())}
+
+
 def run(ctx):
     exe = kexec.build(ctx, 'asanfp')
     E = Env(ctx.work)
@@ -424,6 +496,8 @@ def run(ctx):
         for sh in range(2 if quick else 8):
             jobs.append((exe, env, ctx.work, ctx.seed * 1000 + i * 10 + sh, E, [nm], stride, sh, 2 if quick else 8, multi))
     pool.run(ctx, worker, jobs, workers=16)
+    memcheck_part(ctx, E)
     c = ctx.counters
     if not ctx.violations and not ctx.known_printed:
+        ctx.require(c.get('memcheck_skipped_no_valgrind') or c.get('memcheck_faulted_runs', 0) >= 100, 'catalogue run under valgrind memcheck')
         ctx.require(c.get('faults_injected', 0) >= 1000 and c.get('fault_reported_as_error', 0) >= 500, 'faults injected and reported')
